@@ -736,6 +736,14 @@ func propC04(w *World, r *Report, tier string) {
 					r.OK("table.len-bounds")
 				}
 			}
+			// last duplicate wins: every occurrence starts from a freshly constructed element
+			if sp.Presence == "O" {
+				if !ds.New || !f.Desc.NewOK {
+					r.Fail("table.last-duplicate-wins", df, sp.IE, ds.Pos, "the case for "+sp.IE+" does not start from a freshly constructed element: a repeated element is decoded into the state left by the earlier occurrence", nil)
+				} else {
+					r.OK("table.last-duplicate-wins")
+				}
+			}
 			// value extent vs storage
 			checkStorageDual(r, c, *f, ds, df)
 			// error discipline
